@@ -19,7 +19,8 @@ UNITS.append(
         requires=["M >= 0", "M <= NN"],
         loops={"0": dict(inv=["Sum(0, n, lambda i: x[i] - c) == Sum(0, n, lambda i: x[i]) - n * c"], label="induction")},
         ensures={"sum_shift": "Sum(0, M, lambda i: x[i] - c) == Sum(0, M, lambda i: x[i]) - M * c"},
-        opts={"callee": False},
+        returns="none",
+        opts={"callee": True},
     )
 )
 
@@ -32,7 +33,8 @@ UNITS.append(
         props=["C19"],
         ghosts={"n": ("int", "len(x)")},
         params={"x": ("arr", "real", ("n",)), "order": ("const", 0)},
-        requires=["n >= 1"],
+        requires=["n >= 1", "order == 0"],
+        returns=("arr", "real", ("n",)),
         cites=[{"lemma": "lemma.sum_shift", "bind": {"c": "Sum(0, n, lambda i: x[i]) / n", "M": "n"}}],
         ensures={
             "mean_removed": "forall(0, n, lambda i: result[i] == x[i] - Sum(0, n, lambda j: x[j]) / n)",
@@ -40,7 +42,34 @@ UNITS.append(
             "input_not_written": "forall(0, n, lambda i: x[i] == old_x[i])",
             "length": "len(result) == n",
         },
-        opts={"callee": False, "sat_level": 1},
+        # callee for the lemma units below (call sites must have order == 0: a call_pre obligation)
+        opts={"callee": True, "sat_level": 1},
+    )
+)
+UNITS.append(
+    Unit(
+        id="lemma.detrend0_idempotent",
+        module=LEM,
+        func="lemma_detrend0_idempotent",
+        props=["C19"],
+        ghosts={"n": ("int", "len(x)")},
+        params={"x": ("arr", "real", ("n",))},
+        requires=["n >= 1"],
+        ensures={"C19.idempotent": "forall(0, n, lambda i: result[1][i] == result[0][i])"},
+        opts={"callee": False},
+    )
+)
+UNITS.append(
+    Unit(
+        id="lemma.detrend0_annihilates_constants",
+        module=LEM,
+        func="lemma_detrend0_annihilates_constants",
+        props=["C19"],
+        ghosts={"n": ("int", "len(x)")},
+        params={"x": ("arr", "real", ("n",)), "c": "real"},
+        requires=["n >= 1", "forall(0, n, lambda i: x[i] == c)"],
+        ensures={"C19.constant_is_mapped_to_zero": "forall(0, n, lambda i: result[i] == 0)"},
+        opts={"callee": False},
     )
 )
 UNITS.append(
